@@ -196,7 +196,11 @@ fn answer<'a, T: IteTable<'a, BddPtr<'a>> + Default>(
             Ans::Opt(v.0, v.1, model_vec(&m, n))
         }
         Q::Smooth(i, s) => {
-            let r = b.smooth(at(i), n);
+            // smooth over a prefix of the order that covers the diagram: between (deepest tested level + 1) and n
+            let lv = order_levels(b.order());
+            let lo = bdd_nodes(at(i)).iter().map(|nd| lv[nd.var.value_usize()] + 1).max().unwrap_or(0);
+            let ns = lo + (sel(s, 0, 2) as usize) % (n - lo + 1);
+            let r = b.smooth(at(i), ns);
             extra.push(r);
             let c = r.unsmoothed_wmc(&real_params(n, s, false)).0;
             Ans::Diagram(bdd_tt(r), c)
